@@ -23,7 +23,11 @@ def build_factory(cfg):
         sign = 1.0 if cfg["mode"] == "min" else -1.0
         R_job = R + 2 if cfg["kind"] == "pbt" else R
         extra = (lambda t, level, run: {"cost": 1.0 + 0.5 * level + 0.1 * t}) if cfg["kind"] == "hb-cost" else None
-        spec = ScriptSpec(table(8, R_job, sign), R_job, max_resource_attr=info["mra"], checkpointing=True, extra=extra)
+        tab = table(8, R_job, sign)
+        if cfg.get("ties"):
+            # pairs of trials report exactly the same values (ties at a promotion cut are legal inputs)
+            tab = [tab[(t // 2) * 2] for t in range(8)]
+        spec = ScriptSpec(tab, R_job, max_resource_attr=info["mra"], checkpointing=True, extra=extra)
         make = make_scripted_local_backend if cfg.get("files") else ScriptedBackend
         backend = make(chooser, spec, cfg["W"], profile=cfg["profile"], log=log, late_results=False,
                        delete_checkpoints=cfg["delete"])
@@ -37,7 +41,7 @@ def build_factory(cfg):
 
 def ctx_of(cfg):
     return (f"{cfg['kind']}{'+spec' if cfg.get('speculative') else ''}/W{cfg['W']}/{'del' if cfg['delete'] else 'keep'}"
-            + ("" if cfg.get("mra", True) else "/nomra") + ("/files" if cfg.get("files") else ""))
+            + ("" if cfg.get("mra", True) else "/nomra") + ("/ties" if cfg.get("ties") else "") + ("/files" if cfg.get("files") else ""))
 
 
 def label(cfg):
@@ -74,7 +78,7 @@ def configs(tier, seed):
                     if tier == "quick" and not delete and pi % 4 != (seed % 4):
                         continue
                     cfg = dict(kind=base, speculative=spec, W=W, R=4, mode="min" if (pi + W) % 2 else "max", seed=seed, profile=prof,
-                               mra=(base == "pbt") or ((pi + ki) % 2 == 0),   # without max_resource_attr jobs run on past their milestone
+                               mra=(base == "pbt") or ((pi + ki) % 2 == 0), ties=(pi % 4 == 1),   # without max_resource_attr jobs run on past their milestone
                                delete=delete, k=1 if tier == "quick" else 2, stop={"max_num_trials_started": 5 if base != "pbt" else 6},
                                wait=(pi % 2 == 0), pop=2 if W == 2 else 3, max_exec=250 if tier == "quick" else 5000)
                     out.append(cfg)
